@@ -38,6 +38,18 @@ Theorem C15_emitted_require_mirrors : forall mangle m rest this_module,
 Proof. exact emitted_require_mirrors. Qed.
 Print Assumptions C15_emitted_require_mirrors.
 
+(* Every prefixed require -- (require m), (require m :as A) -- asks hy.macros.require for ALL macros of
+   the module at compile time and, by the theorem above, at bytecode-load time too; the unprefixed
+   forms keep what assignment_shape says ("EXPORTS" for the star form, the name list otherwise). *)
+Theorem C15_prefixed_require_asks_for_all : forall mangle m rest prefix a,
+  require_shape mangle m rest = (prefix, a) -> prefix <> [] -> a = AAll.
+Proof. exact prefixed_require_asks_for_all. Qed.
+Print Assumptions C15_prefixed_require_asks_for_all.
+Theorem C15_unprefixed_require_keeps_shape : forall mangle m rest a,
+  require_shape mangle m rest = ([], a) -> assignment_shape mangle m rest = ([], a).
+Proof. exact unprefixed_require_keeps_shape. Qed.
+Print Assumptions C15_unprefixed_require_keeps_shape.
+
 (* hy.macros.require: the target after a successful call; the names "EXPORTS" covers. *)
 Theorem C15_require_spec : forall mangle env src t a p t' out,
   require mangle env src t a p = inr (t', out) ->
